@@ -43,6 +43,12 @@ TRelease == /\ l >= 1 /\ l <= Len(Rec.events)
                /\ strict' = (strict /\ p \in SimAt(Rec, released).started \ released
                                     /\ SeqToSet(Rec.events[l].pending) = SimAt(Rec, released').started \ released')
             /\ l' = l + 1 /\ UNCHANGED i
+\* the recorded data cannot tell an enum value from a string: compare with enum leaves read as strings
+RECURSIVE AsWire(_)
+AsWire(v) == IF v.t = "E" THEN Str(v.v)
+             ELSE IF v.t = "L" THEN Lst([k \in 1..Len(v.v) |-> AsWire(v.v[k])])
+             ELSE IF v.t = "O" THEN Obj([k \in 1..Len(v.v) |-> <<v.v[k][1], AsWire(v.v[k][2])>>])
+             ELSE v
 VisibleN(ns) == {n \in ns : ~\E m \in ns : m.at # n.at /\ IsPrefixPath(m.at, n.at)}
 \* C09: at every idle point at most one mutation root has resolvers in flight, roots entered in document order
 RootOrder(rec) == LET g == Collect(CtxOf(rec), RootType(CtxOf(rec)), <<rec.op>>) IN [k \in 1..Len(g) |-> g[k][1]]
@@ -54,7 +60,7 @@ SerialOK(rec) ==
     /\ \A m, n \in 1..Len(rec.events) : m < n => RootIdx(rec, rec.events[m].p[1]) <= RootIdx(rec, rec.events[n].p[1])
 TRespond == /\ l = Len(Rec.events) + 1
             /\ LET b == BigStep(CtxOf(Rec)) IN
-               /\ VEq(b.data, Rec.data)
+               /\ VEq(AsWire(b.data), Rec.data)
                /\ SeqToSet(Rec.errpaths) \subseteq {e.path : e \in b.errs}
                /\ \A n \in VisibleN(b.nulls) : n.why \cap SeqToSet(Rec.errpaths) # {}
                /\ ~Rec.leftover
@@ -78,7 +84,7 @@ Stuck(k) ==
   ELSE IF at <= Len(rec.events) THEN
        (IF rec.events[at].p \in rel THEN "resolver-released-twice" ELSE "resolver-the-algorithm-never-calls")
   ELSE LET b == BigStep(CtxOf(rec)) IN
-       IF ~VEq(b.data, rec.data) THEN "data"
+       IF ~VEq(AsWire(b.data), rec.data) THEN "data"
        ELSE IF rec.leftover THEN "resolvers-or-tasks-left-over"
        ELSE IF ~SerialOK(rec) THEN "mutation-roots-not-serial"
        ELSE "errors"
